@@ -319,6 +319,12 @@ func (db *MultiBucketBackend) ForceDeleteBucket(name string) error {
 }
 
 func (db *MultiBucketBackend) BucketExists(name string) (exists bool, err error) {
+	if name == "" || name == "." || name == ".." || strings.ContainsAny(name, `/\`) {
+		// Not the name of a directory below the buckets root: "." is the
+		// root itself, and the key of a request addressed to it would be
+		// resolved inside whichever bucket its first segment names.
+		return false, nil
+	}
 	db.lock.Lock()
 	defer db.lock.Unlock()
 	exists, err = afero.Exists(db.bucketFs, name)
